@@ -1029,6 +1029,10 @@ def answer (line : String) : String :=
       | none => "bad-request"
     | _, _, _, _ => "bad-request"
   | "cfg" :: ctor :: ops => answerCfg ctor ops
+  | ["rtype", name] =>
+    match rtypeOfString name with
+    | some t => s!"ok {t.code}"
+    | none => "bad-request"
   | _ => "bad-request"
 
 end Rsdns.Driver
